@@ -505,7 +505,7 @@ impl Drop for MemoryMap {
         #[cfg(feature = "verif-probes")]
         crate::verif::hit(crate::verif::probe::MMAP_DROP);
         unsafe {
-            let _ = libc::munmap(self.ptr.cast::<libc::c_void>(), self.len);
+            let _ = libc::munmap(self.ptr.cast::<libc::c_void>(), bits::words_to_bytes(self.len));
         }
     }
 }
